@@ -597,10 +597,27 @@ fn space_dump(alpha: Vec<E>, max_len: u32) -> Space {
             maps += &format!("{:x}-{:x} r-xp 00000000 00:00 {i} /m\n", ends[i].0, ends[i].1);
         }
         d = d.set_linux_maps(maps.as_bytes());
-        let bytes = d.finish().expect("synth dump");
+        let mut bytes = d.finish().expect("synth dump");
+        // every other sequence: the module entries WITHOUT a range (size 0, or running past the address space)
+        // also have no readable name - such an entry is left out, it does not take the list down with it
+        if idx % 2 == 1 {
+            let rd = |b: &[u8], o: usize| u32::from_le_bytes(b[o..o + 4].try_into().unwrap()) as usize;
+            let (count, dir) = (rd(&bytes, 8), rd(&bytes, 12));
+            let ml = (0..count).map(|k| dir + 12 * k).find(|&e| rd(&bytes, e) == 4).map(|e| rd(&bytes, e + 8)).expect("c08 generator: module list stream");
+            assert_eq!(rd(&bytes, ml), seq.len(), "c08 generator: module count");
+            for (i, e) in seq.iter().enumerate() {
+                if excl(e.base, e.size).is_none() {
+                    let name_rva = ml + 4 + 108 * i + 20;
+                    bytes[name_rva..name_rva + 4].copy_from_slice(&0xffff_fff0u32.to_le_bytes());
+                }
+            }
+        }
         let obs = guard(|| {
             let dump = Minidump::read(&bytes[..]).expect("c08 generator: dump rejected");
-            let ml = dump.get_stream::<MinidumpModuleList>().expect("c08 generator: module list");
+            let ml = match dump.get_stream::<MinidumpModuleList>() {
+                Ok(ml) => ml,
+                Err(e) => return Err(format!("{e:?}")),
+            };
             let item = |m: &MinidumpModule| Item { own: natural(m.base_address(), m.size()), key: (m.base_address(), m.size(), m.name.parse().expect("name")) };
             let t_mod = Table {
                 inputs: seq.iter().enumerate().map(|(i, e)| Item { own: excl(e.base, e.size), key: (e.base, e.size, i as u64) }).collect(),
@@ -632,10 +649,14 @@ fn space_dump(alpha: Vec<E>, max_len: u32) -> Space {
             } else {
                 None
             };
-            (t_mod, t_info, t_maps, unl)
+            Ok((t_mod, t_info, t_maps, unl))
         });
         match obs {
-            Ok((t_mod, t_info, t_maps, unl)) => {
+            Ok(Err(e)) => {
+                l.eval();
+                fail(l, "dump-modules", "module-list-rejected", format!("the module list stream is rejected ({e}) although every entry is well-formed or merely has no range"), &seq);
+            }
+            Ok(Ok((t_mod, t_info, t_maps, unl))) => {
                 check_table(l, "dump-modules", false, &seq, &t_mod);
                 if let Some(t) = t_info {
                     check_table(l, "dump-memory-info", false, &seq, &t);
